@@ -25,7 +25,8 @@ func (s *sub) ID() string                   { return s.id }
 func (s *sub) Type() message.SubscriberType { return message.SubscriberDirect }
 func (s *sub) Send(*message.Message) error  { return nil }
 
-// Op is one step of a history. K: 0 subscribe, 1 unsubscribe, 2 lookup.
+// Op is one step of a history. K: 0 subscribe, 1 unsubscribe, 2 lookup, 3 remove every live pair (order from Pick)
+// and go on: the index is emptied and re-populated within one history.
 type Op struct {
 	K        int
 	Contract int    // index into contracts
@@ -87,24 +88,112 @@ func genChannel(t *rapid.T) string {
 	return strings.Join(parts, "/") + "/"
 }
 
+// genPool draws the small set of filters one history mostly works with: a base filter, its proper prefixes and
+// extensions (nested nodes of one branch), a permutation of its levels, and a few unrelated ones. Re-subscribing a
+// filter that was removed earlier, and removing a whole branch leaf-first or root-first, become frequent this way.
+func genPool(t *rapid.T, mqtt bool) []string {
+	base := genFilter(t, mqtt)
+	pool := []string{base}
+	lv := vkit.Levels(base)
+	start := 0
+	if lv[0] == "$share" {
+		start = 2
+	}
+	body := lv[start:]
+	pre := strings.Join(lv[:start], "/")
+	if pre != "" {
+		pre += "/"
+	}
+	for i := 1; i < len(body); i++ { // proper prefixes
+		if body[i-1] != "#" {
+			pool = append(pool, pre+strings.Join(body[:i], "/")+"/")
+		}
+	}
+	if body[len(body)-1] != "#" {
+		pool = append(pool, pre+strings.Join(append(append([]string{}, body...), rapid.SampledFrom([]string{"a", "b", "+"}).Draw(t, "ext")), "/")+"/")
+		rev := append([]string{}, body...)
+		for i, j := 0, len(rev)-1; i < j; i, j = i+1, j-1 {
+			rev[i], rev[j] = rev[j], rev[i]
+		}
+		pool = append(pool, pre+strings.Join(rev, "/")+"/")
+	}
+	if start == 2 { // the same filter without the share prefix
+		pool = append(pool, strings.Join(body, "/")+"/")
+	}
+	for i, n := 0, rapid.IntRange(0, 3).Draw(t, "extra"); i < n; i++ {
+		pool = append(pool, genFilter(t, mqtt))
+	}
+	return pool
+}
+
 func genCase(mqtt bool) func(t *rapid.T) Case {
 	return func(t *rapid.T) Case {
 		c := Case{MQTT: mqtt}
 		n := rapid.IntRange(1, 60).Draw(t, "nops")
+		pool := genPool(t, mqtt)
+		fresh := rapid.SampledFrom([]int{0, 1, 1, 3, 10}).Draw(t, "fresh") // out of 10: how often a filter outside the pool is used
+		filter := func() string {
+			if rapid.IntRange(0, 9).Draw(t, "usefresh") < fresh {
+				return genFilter(t, mqtt)
+			}
+			return rapid.SampledFrom(pool).Draw(t, "pf")
+		}
+		// per-history weights: subscribe / unsubscribe / lookup / remove-everything
+		prof := rapid.SampledFrom([][4]int{{4, 3, 3, 0}, {4, 3, 3, 1}, {2, 5, 3, 0}, {5, 2, 3, 1}, {3, 3, 1, 1}}).Draw(t, "profile")
+		tot := prof[0] + prof[1] + prof[2] + prof[3]
+		// lookup channels are mostly derived from a pool filter (wildcards instantiated, levels appended or cut)
+		channel := func() string {
+			if rapid.IntRange(0, 9).Draw(t, "anychan") < 3 {
+				return genChannel(t)
+			}
+			lv := vkit.Levels(rapid.SampledFrom(pool).Draw(t, "cf"))
+			if lv[0] == "$share" {
+				lv = lv[2:]
+			}
+			var out []string
+			for _, l := range lv {
+				switch l {
+				case "+":
+					out = append(out, rapid.SampledFrom([]string{"a", "b", "c"}).Draw(t, "inst"))
+				case "#":
+					for j, m := 0, rapid.IntRange(0, 2).Draw(t, "tail"); j < m; j++ {
+						out = append(out, rapid.SampledFrom([]string{"a", "b", "c"}).Draw(t, "inst"))
+					}
+				default:
+					out = append(out, l)
+				}
+			}
+			switch rapid.IntRange(0, 5).Draw(t, "reshape") {
+			case 0:
+				out = append(out, rapid.SampledFrom([]string{"a", "b", "c"}).Draw(t, "more"))
+			case 1:
+				if len(out) > 1 {
+					out = out[:len(out)-1]
+				}
+			}
+			if len(out) == 0 {
+				out = []string{"a"}
+			}
+			return strings.Join(out, "/") + "/"
+		}
 		for i := 0; i < n; i++ {
 			var op Op
-			switch k := rapid.IntRange(0, 9).Draw(t, "kind"); {
-			case k < 4:
-				op = Op{K: 0, Contract: rapid.IntRange(0, 1).Draw(t, "c"), Filter: genFilter(t, mqtt), Sub: rapid.IntRange(0, nSubs-1).Draw(t, "s")}
-			case k < 7:
+			switch k := rapid.IntRange(0, tot*3-1).Draw(t, "kind"); {
+			case k < prof[0]*3:
+				op = Op{K: 0, Contract: rapid.IntRange(0, 1).Draw(t, "c"), Filter: filter(), Sub: rapid.IntRange(0, nSubs-1).Draw(t, "s")}
+			case k < (prof[0]+prof[1])*3:
 				op = Op{K: 1, Pick: -1}
 				if rapid.IntRange(0, 4).Draw(t, "existing") > 0 {
 					op.Pick = rapid.IntRange(0, 1000).Draw(t, "pick")
 				} else {
-					op.Contract, op.Filter, op.Sub = rapid.IntRange(0, 1).Draw(t, "c"), genFilter(t, mqtt), rapid.IntRange(0, nSubs-1).Draw(t, "s")
+					op.Contract, op.Filter, op.Sub = rapid.IntRange(0, 1).Draw(t, "c"), filter(), rapid.IntRange(0, nSubs-1).Draw(t, "s")
 				}
+			case k < (prof[0]+prof[1]+prof[2])*3:
+				op = Op{K: 2, Contract: rapid.IntRange(0, 1).Draw(t, "c"), Channel: channel()}
+			case k == (prof[0]+prof[1]+prof[2])*3: // a third of the weight unit: rare
+				op = Op{K: 3, Pick: rapid.IntRange(0, 1000).Draw(t, "order")}
 			default:
-				op = Op{K: 2, Contract: rapid.IntRange(0, 1).Draw(t, "c"), Channel: genChannel(t)}
+				op = Op{K: 2, Contract: rapid.IntRange(0, 1).Draw(t, "c"), Channel: channel()}
 			}
 			c.Ops = append(c.Ops, op)
 		}
@@ -251,6 +340,20 @@ func run(c Case) vkit.Result {
 			}
 			tr.Unsubscribe(ssidOf(contracts[p.contract], p.filter), subs[p.sub])
 			delete(model, p)
+		case 3:
+			live := sortedPairs(model)
+			for j := 0; len(live) > 0; j++ {
+				k := (op.Pick + j*7) % len(live)
+				p := live[k]
+				live = append(live[:k], live[k+1:]...)
+				tr.Unsubscribe(ssidOf(contracts[p.contract], p.filter), subs[p.sub])
+				delete(model, p)
+				unsubSeen = true
+			}
+			if nodes, _, _ := tr.VerifDump(); nodes != 1 {
+				return vkit.Failf("step %d: every subscription removed, %d nodes left in the index", i, nodes)
+			}
+			labels["emptied-and-reused"] = true
 		case 2:
 			got := map[int]bool{}
 			for _, s := range tr.Lookup(ssidOf(contracts[op.Contract], op.Channel), nil) {
